@@ -47,8 +47,12 @@ theorem c07_source_shape :
 
 /-! ## the directory's verdict is final -/
 
-/-- **Some server answers ⇒ the result is the directory's verdict**, whatever the stores hold
-(tampered, expired, foreign-signed, another user's record) and whatever the other servers do; an
+/-- **Some (server, bind pattern) pair answers with a verdict ⇒ the result is the directory's
+verdict** (`answers`: a reachable server and a pattern the directory does not answer with an error;
+`dirAccepts`: the FIRST such pattern names the user's entry and the directory holds this non-empty
+password — errors fall through to the next pattern and the next server, a verdict never does),
+whatever the stores hold (tampered, expired, foreign-signed, another user's record), whatever the
+other servers do and whatever later patterns would have answered; an
 acceptance is recorded as a confirmation and — the primary being writable — leaves exactly one fresh
 record for this user and password, signed for this user, of the password type, expiring
 `cacheDur` from now; a rejection confirms nothing, never touches the cache database and never
@@ -83,6 +87,22 @@ theorem c07_dir_final (s : State) (u : User) (pw : Pw) (h : answers s) :
   · refine ⟨rfl, (fun _ => ⟨rfl, fun hw => ?_⟩), (fun hc => by cases hc)⟩
     simp only [upsert, hw, if_true, upd_self, freshRec, freshSigned]
 
+/-- **Servers × patterns: the first verdict in loop order is final.** With any number of servers in any
+state and any list of bind patterns, as soon as one pair gives verdicts the login is accepted exactly
+when the password is non-empty, the first pattern not answered with an error names the user's entry,
+and the directory holds that password; in particular a rejection under an earlier pattern is not
+overridden by a later pattern's success or error, nor by the cached hash. -/
+theorem c07_first_verdict_final (s : State) (u : User) (pw : Pw) (h : answers s) :
+    ((login s u pw).2 = true ↔ (pw ≠ 0 ∧ firstPat s = some Pat.entry ∧ s.dir u = some pw)) ∧
+    (firstPat s ≠ some Pat.entry → (login s u pw).2 = false) := by
+  rw [(c07_dir_final s u pw h).1]
+  unfold dirAccepts
+  constructor
+  · simp [Bool.and_eq_true, and_assoc]
+  · intro hne
+    have : (firstPat s == some Pat.entry) = false := by simpa using hne
+    rw [this]; simp
+
 /-- **Rejection of the cached password evicts it.** Full statement wanted by the property:
 `answers s → dirAccepts s u pw = false → (the user's stored hash is pw's) → afterwards no store
 holds it`. That is FALSE while the primary is unreachable or its cache is stale
@@ -110,7 +130,7 @@ theorem c07_evict_partial (s : State) (u : User) (pw : Pw) (h : answers s) (hd :
 primary is unreachable (the delete fails), the primary comes back, the directory goes away — and the
 rejected password is accepted -/
 theorem c07_evict_lost_witness :
-    (login (run init [.setServers [.up], .changePw 0 (some 1), .login 0 1, .sync, .changePw 0 (some 3),
+    (login (run init [.setServers [.up], .setPats [.entry], .changePw 0 (some 1), .login 0 1, .sync, .changePw 0 (some 3),
                       .setPrim .down, .login 0 1, .setPrim .up, .setServers [.down]]) 0 1).2 = true := by
   decide
 
@@ -152,6 +172,7 @@ theorem c07_confirm_only_by_directory (s : State) (op : Op) (u : User) (pw : Pw)
       split at h <;> exact h
   | setServer i st => exact Or.inl h
   | setServers l => exact Or.inl h
+  | setPats l => exact Or.inl h
   | changePw u' p => exact Or.inl h
   | setAnon b => exact Or.inl h
   | advance dt => exact Or.inl h
@@ -238,11 +259,17 @@ def Quiet (u : User) (pw : Pw) : Op → Prop
   | .changePw u' p => ¬ (u' = u ∧ p = some pw)
   | _ => True
 
-theorem clean_step {s : State} {u : User} {pw : Pw} (hc : Clean s u pw) (hd : dirAccepts s u pw = false)
-    (op : Op) (hq : Quiet u pw op) : Clean (step s op) u pw ∧ dirAccepts (step s op) u pw = false := by
+theorem dirAccepts_false_of_dir {s : State} {u : User} {pw : Pw} (h : s.dir u ≠ some pw) :
+    dirAccepts s u pw = false := by
+  unfold dirAccepts
+  have : (s.dir u == some pw) = false := by simpa using h
+  rw [this]; simp
+
+theorem clean_step {s : State} {u : User} {pw : Pw} (hc : Clean s u pw) (hd : s.dir u ≠ some pw)
+    (op : Op) (hq : Quiet u pw op) : Clean (step s op) u pw ∧ (step s op).dir u ≠ some pw := by
   cases op with
   | login u' pw' =>
-    have hd' : dirAccepts (step s (.login u' pw')) u pw = false := by
+    have hd' : (step s (.login u' pw')).dir u ≠ some pw := by
       simp only [step, stepWith, repaired, loginWith]
       split
       · exact hd
@@ -262,7 +289,7 @@ theorem clean_step {s : State} {u : User} {pw : Pw} (hc : Clean s u pw) (hd : di
         · injection hv with hv; subst hv
           simp only [freshRec, freshSigned]
           intro hpp; subst hpp; subst hx
-          rw [hd] at hacc; cases hacc
+          rw [dirAccepts_false_of_dir hd] at hacc; cases hacc
         · exact hc.1 r hv
       · exact hc.1 r hr
     · split
@@ -279,20 +306,15 @@ theorem clean_step {s : State} {u : User} {pw : Pw} (hc : Clean s u pw) (hd : di
     · split <;> exact hc
   | setServer i st => exact ⟨hc, hd⟩
   | setServers l => exact ⟨hc, hd⟩
+  | setPats l => exact ⟨hc, hd⟩
   | changePw u' p =>
     refine ⟨hc, ?_⟩
-    simp only [step, stepWith, dirAccepts] at hd ⊢
+    simp only [step, stepWith]
     by_cases hu : u = u'
     · subst hu
       simp only [if_true]
-      cases hz : (pw != 0)
-      · simp
-      · simp only [Bool.true_and]
-        cases p with
-        | none => simp
-        | some p' =>
-          have : ¬ p' = pw := fun e => hq ⟨rfl, by rw [e]⟩
-          simp [this]
+      intro hp
+      exact hq ⟨rfl, hp⟩
     · simp only [hu, if_false]; exact hd
   | setAnon b => exact ⟨hc, hd⟩
   | advance dt => exact ⟨hc, hd⟩
@@ -329,8 +351,8 @@ theorem clean_rejects {s : State} {u : User} {pw : Pw} (hc : Clean s u pw) (hd :
     · rfl
 
 theorem clean_run {s : State} {u : User} {pw : Pw} (ops : List Op) (hc : Clean s u pw)
-    (hd : dirAccepts s u pw = false) (hq : ∀ op ∈ ops, Quiet u pw op) :
-    Clean (run s ops) u pw ∧ dirAccepts (run s ops) u pw = false := by
+    (hd : s.dir u ≠ some pw) (hq : ∀ op ∈ ops, Quiet u pw op) :
+    Clean (run s ops) u pw ∧ (run s ops).dir u ≠ some pw := by
   induction ops generalizing s with
   | nil => exact ⟨hc, hd⟩
   | cons op rest ih =>
@@ -344,14 +366,15 @@ theorem login_reject_found {s : State} {u : User} {pw : Pw} (h : answers s) (hd 
   simp only [hg, if_true]
 
 /-- **Rejected, evicted, synchronised ⇒ stays out**: the directory rejects the password the store
-holds (primary reachable), the caches are synchronised, and from then on — through ANY history of
-logins of anybody, server and primary outages, clock advances, further synchronisations and other
+holds and the directory no longer does (primary reachable), the caches are synchronised, and from then on — through ANY history of
+logins of anybody, server and primary outages, changes of the configured bind patterns, clock advances, further synchronisations and other
 password changes, as long as nobody rewrites database rows and the directory does not take that
 password back — that password is never accepted for that user again, offline or online. -/
 theorem c07_evicted_stays_out (s : State) (u : User) (pw : Pw) (ops : List Op)
-    (hup : s.prim = .up) (h : answers s) (hd : dirAccepts s u pw = false) (hg : getSigned s u = .found pw)
+    (hup : s.prim = .up) (h : answers s) (hdir : s.dir u ≠ some pw) (hg : getSigned s u = .found pw)
     (hq : ∀ op ∈ ops, Quiet u pw op) :
     (login (run (step (step s (.login u pw)) .sync) ops) u pw).2 = false := by
+  have hd : dirAccepts s u pw = false := dirAccepts_false_of_dir hdir
   have hs1 : step s (.login u pw) = delete s u := login_reject_found h hd hg
   rw [hs1]
   have hc : Clean (step (delete s u) .sync) u pw := by
@@ -361,24 +384,30 @@ theorem c07_evicted_stays_out (s : State) (u : User) (pw : Pw) (ops : List Op)
       simp [upd_self] at hr
     · intro r hr
       simp [upd_self, unexpired] at hr
-  have hd2 : dirAccepts (step (delete s u) .sync) u pw = false := by
+  have hd2 : (step (delete s u) .sync).dir u ≠ some pw := by
     simp only [step, stepWith, repaired, sync, delete, hup]
-    exact hd
+    exact hdir
   have := clean_run ops hc hd2 hq
-  exact clean_rejects this.1 this.2
+  exact clean_rejects this.1 (dirAccepts_false_of_dir this.2)
 
 /-! ## the tree as found -/
 
 def asFoundC04 : Variant := { lp := loop, get := getSignedWith checkRecUnfixed, sync := sync }
 def asFoundC15 : Variant := { lp := loop, get := getSigned, sync := syncUnfixed }
 def asFoundEmpty : Variant :=
-  { lp := fun s u pw => loopWith (fun st => checkServerUnfixed s st u pw) s.srv, get := getSigned, sync := sync }
+  { lp := fun s u pw => loopWith (fun st => loopWith (fun p => checkServerUnfixed s st p u pw) s.pats) s.srv,
+    get := getSigned, sync := sync }
+
+/-- the reviewer's seeded variant: within one server only the LAST bind pattern's rejection decides -/
+def lastPatternDecides : Variant :=
+  { lp := fun s u pw => loopWith (fun st => patLoopLastDecides (fun p => checkServer s st p u pw) s.pats) s.srv,
+    get := getSigned, sync := sync }
 
 def lastLogin (v : Variant) (ops : List Op) (u : User) (pw : Pw) : Option Bool :=
   (stepWith v (runWith v init ops) (.login u pw)).2
 
 def expiredRaised : List Op :=
-  [.setServers [.up], .changePw 0 (some 1), .login 0 1, .advance (100 * 3600), .setServers [.down],
+  [.setServers [.up], .setPats [.entry], .changePw 0 (some 1), .login 0 1, .advance (100 * 3600), .setServers [.down],
    .tamper .primary 0 (some { signed := { subject := 0, pwId := 1, exp := 0 + cacheDur, type := pwType },
                               sigOK := true, columnExp := 150 * 3600 })]
 
@@ -389,7 +418,7 @@ theorem c07_unfixed_counterexample_column_expiry :
   decide
 
 def typeSwapped : List Op :=
-  [.setServers [.down], .signOther { subject := 0, pwId := 3, exp := 50 * 3600, type := pwType + 1 },
+  [.setServers [.down], .setPats [.entry], .signOther { subject := 0, pwId := 3, exp := 50 * 3600, type := pwType + 1 },
    .tamper .primary 0 (some { signed := { subject := 0, pwId := 3, exp := 50 * 3600, type := pwType + 1 },
                               sigOK := true, columnExp := 50 * 3600 })]
 
@@ -400,7 +429,7 @@ theorem c07_unfixed_counterexample_type_swap :
   decide
 
 def evictedThenOutage : List Op :=
-  [.setServers [.up], .changePw 0 (some 1), .login 0 1, .sync, .changePw 0 (some 3), .login 0 1, .sync,
+  [.setServers [.up], .setPats [.entry], .changePw 0 (some 1), .login 0 1, .sync, .changePw 0 (some 3), .login 0 1, .sync,
    .setServers [.down], .setPrim .slow]
 
 /-- as found (b-c15's defect): the directory rejected the cached password, the hash was evicted
@@ -410,12 +439,26 @@ theorem c07_unfixed_counterexample_sync_eviction :
     lastLogin asFoundC15 evictedThenOutage 0 1 = some true ∧ lastLogin repaired evictedThenOutage 0 1 = some false := by
   decide
 
-def emptyPassword : List Op := [.setServers [.up], .changePw 0 (some 1), .setAnon true]
+def emptyPassword : List Op := [.setServers [.up], .setPats [.entry], .changePw 0 (some 1), .setAnon true]
 
 /-- as found: a directory that allows unauthenticated binds "confirms" the empty password for anybody -/
 theorem c07_unfixed_counterexample_empty_password :
     lastLogin asFoundEmpty emptyPassword 0 0 = some true ∧ lastLogin asFoundEmpty emptyPassword 7 0 = some true ∧
     lastLogin repaired emptyPassword 0 0 = some false := by
+  decide
+
+def rejectedThenPatternError : List Op :=
+  [.setServers [.up, .up], .setPats [.entry, .malformed], .changePw 0 (some 1), .login 0 1, .changePw 0 (some 3)]
+
+/-- several bind patterns (seeded variant, not the tree as found): the directory rejects the old
+password under the first pattern, the last pattern is answered with an error, and the variant falls
+through to the cached hash — accepted, and not evicted, so still accepted when the servers are gone;
+the code's rule "first verdict in servers × patterns order is final" rejects and evicts -/
+theorem c07_last_pattern_decides_counterexample :
+    lastLogin lastPatternDecides rejectedThenPatternError 0 1 = some true ∧
+    lastLogin lastPatternDecides (rejectedThenPatternError ++ [.login 0 1, .setServers [.down, .down]]) 0 1 = some true ∧
+    lastLogin repaired rejectedThenPatternError 0 1 = some false ∧
+    lastLogin repaired (rejectedThenPatternError ++ [.login 0 1, .setServers [.down, .down]]) 0 1 = some false := by
   decide
 
 /-! ## the other backends, and the name in front of all of them -/
@@ -481,11 +524,11 @@ theorem c07_normalised (disable : Bool) (lower : List Char → List Char) (filte
 /-- the hypotheses are satisfiable and the offline path does accept: a confirmed login, both servers
 down, 95 h later the cached hash still decides, 5 h after that it no longer does -/
 example :
-    (login (run init [.setServers [.up, .up], .changePw 0 (some 1), .login 0 1, .sync, .setServers [.down, .err],
+    (login (run init [.setServers [.up, .up], .setPats [.malformed, .entry], .changePw 0 (some 1), .login 0 1, .sync, .setServers [.down, .err],
                       .advance (95 * 3600)]) 0 1).2 = true ∧
-    (login (run init [.setServers [.up, .up], .changePw 0 (some 1), .login 0 1, .sync, .setServers [.down, .err],
+    (login (run init [.setServers [.up, .up], .setPats [.malformed, .entry], .changePw 0 (some 1), .login 0 1, .sync, .setServers [.down, .err],
                       .advance (95 * 3600), .advance (5 * 3600)]) 0 1).2 = false ∧
-    ¬ answers (run init [.setServers [.up, .up], .changePw 0 (some 1), .login 0 1, .sync, .setServers [.down, .err]]) := by
+    ¬ answers (run init [.setServers [.up, .up], .setPats [.malformed, .entry], .changePw 0 (some 1), .login 0 1, .sync, .setServers [.down, .err]]) := by
   decide
 
 end KM.PwCache
